@@ -28,6 +28,7 @@ O: every return value (bytes, readinto count + buffer content, seek/tell positio
 import array
 import hashlib
 import io
+import struct
 
 from hypothesis import given, settings, seed as hseed, strategies as st, HealthCheck, Phase
 from hypothesis.stateful import RuleBasedStateMachine, initialize, rule, precondition, run_state_machine_as_test
@@ -57,7 +58,8 @@ ASSUMPTIONS = [
     'the extent clause only applies to base files of parsed images whose content (>= 16 bytes) occurs exactly once, sector aligned, in the written image; others are counted as extent-unlocatable',
     'exceptions raised by the interleaved queries themselves (list_children/walk/get_record) and image set-up refusals are counted (coverage.query_exceptions / setup_failures), not failed: they belong to other properties',
     'one optional file of 0xfffff800 + {1, 2048, 5000} bytes (> 4 GiB, two extents) is added with add_fp over a virtual pattern file and never written; streams over it start with seek(0, 2) (must equal the size) and then work in the last 70000 bytes before the extent boundary and beyond; its extraction is only checked for a 64 KiB..3 MiB prefix and for not ending early (the verifying sink stops the copy by raising from write())',
-    'boot files with a boot info table and operations after write_fp are not generated',
+    'operations after write_fp are not generated (one mastering at the very end of a case verifies the extent a boot info table was expected for)',
+    'a boot file with a boot info table reads, under every name and through every reader, as its bytes with the 56-byte table over bytes 8..64 (cut to the file length): that is what the image holds',
     'streams are opened with open_file_from_iso(...).__enter__() and closed with __exit__ (the documented context-manager use)',
 ]
 SHARDS = {'quick': 16, 'thorough': 16}
@@ -160,6 +162,17 @@ class PatternFile:
         pass
 
 
+
+def bit_expected(data, extent):
+    """What readers of a boot file with a boot info table must get: bytes 8..64 replaced by the table (PVD at 16, the
+    file's own extent, its length, the 32-bit sum of its little-endian words from byte 64 on), cut to the file's length."""
+    tail = data[64:]
+    tail += b'\x00' * (-len(tail) % 4)
+    csum = sum(struct.unpack('<%dL' % (len(tail) // 4), tail)) & 0xffffffff
+    table = struct.pack('<LLLL', 16, extent, len(data), csum) + b'\x00' * 40
+    return (data[:8] + table + data[64:])[:len(data)] if len(data) > 8 else data
+
+
 EXTENT_MAX = 0xfffff800                 # pycdlib's per-directory-record maximum (one "extent" of a big file)
 HUGE_BASE = EXTENT_MAX - 70000          # streams over the > 4 GiB file work in [HUGE_BASE, size + a little]
 
@@ -189,6 +202,9 @@ def recipe_st(draw):
         'huge': draw(st.sampled_from([None, None, None, 1, 2048, 5000])),
         # parsed images without UDF: open an independently re-mastered ("foreign") version (vf/indep/remaster.py) instead
         'foreign': draw(st.one_of(st.none(), st.integers(0, 1 << 30))),
+        # optionally one of the files is made an El Torito boot file with a boot info table (bytes 8..64 of what every
+        # reader gets are the table, not the bytes that were added)
+        'boot': draw(st.one_of(st.none(), st.none(), st.integers(0, 7))),
     }
 
 
@@ -265,6 +281,7 @@ class Interp:
         self.ok = False
         self.nstream = 0
         self.last_read_stream = None
+        self.bootfile = None
 
     # -- recording
 
@@ -324,6 +341,24 @@ class Interp:
             else:
                 f['backing'] = 'own-fp-%d' % f['idx']
         self.files = files
+        bf = None
+        if r.get('boot') is not None:
+            cands = [f for f in files if not f.get('huge')]
+            bf = cands[r['boot'] % len(cands)]
+            bf['boot'] = True
+            bf['raw'] = bf['data']
+            bf['data'] = None           # known once the file's extent is (first use, or the written image for base files)
+        self.bootfile = bf
+
+        def make_boot(iso):
+            kw = {'boot_info_table': True}
+            if r['rr']:
+                kw['rr_bootcatname'] = 'boot.cat'
+            if r['joliet']:
+                kw['joliet_bootcatfile'] = '/boot.cat'
+            if r['udf']:
+                kw['udf_bootcatfile'] = '/boot.cat'
+            iso.add_eltorito(bf['iso_path'], '/BOOT.CAT;1', **kw)
         any_dir = any(f['dir'] for f in files)
         shared_fp = io.BytesIO(content('shared', shared_max))
         self._keep = [shared_fp]
@@ -335,7 +370,7 @@ class Interp:
                 fp = PatternFile(f['size'])
                 self._keep.append(fp)
             else:
-                fp = io.BytesIO(f['data'])
+                fp = io.BytesIO(f.get('raw') or f['data'])
                 self._keep.append(fp)
             kw = {}
             if r['rr']:
@@ -362,6 +397,8 @@ class Interp:
             for f in files:
                 if f['where'] == 'base':
                     add(iso, f)
+            if bf is not None and bf['where'] == 'base':
+                make_boot(iso)
             if parsed:
                 out = io.BytesIO()
                 iso.write_fp(out)
@@ -382,7 +419,18 @@ class Interp:
                 iso = pycdlib.PyCdlib()
                 iso.open_fp(self.cf)
                 for f in files:
-                    if f['where'] == 'base':
+                    if f['where'] == 'base' and f.get('boot'):
+                        # on the image the file carries the table already; found by what follows the table
+                        f['loc'] = None
+                        if f['size'] >= 80:
+                            p = img.find(f['raw'][64:])
+                            if p >= 64 and (p - 64) % 2048 == 0 and img.find(f['raw'][64:], p + 1) < 0:
+                                f['loc'] = p - 64
+                        if f['loc'] is None:
+                            col.bump('boot-file-unlocatable')
+                        # (what readers get is the table for the extent the file has *now*: files added after the open may
+                        # have moved it; the expectation is made at first use like for any other boot file)
+                    elif f['where'] == 'base':
                         f['loc'] = None
                         if f['size'] >= 16:
                             p = img.find(f['data'])
@@ -393,6 +441,8 @@ class Interp:
             for f in files:
                 if f['where'] == 'added':
                     add(iso, f)
+            if bf is not None and (bf['where'] != 'base'):
+                make_boot(iso)
             self.iso = iso
         except Exception as e:  # set-up refusals/crashes are other properties' business; counted
             d = col.extra.setdefault('setup_failures', {})
@@ -415,6 +465,22 @@ class Interp:
         return True
 
     # -- helpers
+
+    def _boot_expect(self, f):
+        """The expected bytes of a boot file that is not on the opened image: its extent is only known once the library
+        has laid the image out, which it must have done by the time it hands out bytes of this file; the extent is taken
+        from the record now and verified against the written image at the end of the case (finish)."""
+        if not f.get('boot') or f['data'] is not None:
+            return True
+        try:
+            ext = self.iso.get_record(iso_path=f['iso_path']).extent_location()
+        except Exception as e:   # noqa
+            self._exc(e, 'get_record(iso_path=%r)' % f['iso_path'])
+            return False
+        f['data'] = bit_expected(f['raw'], ext)
+        f['claimed-extent'] = ext
+        self.classes.add('boot-info-table:%s' % f['backing'].split('-')[0])
+        return True
 
     def _disturb(self, backing, what, but=None):
         for s in self.live:
@@ -543,6 +609,14 @@ class Interp:
             self.log(what + ' -> raised')
             self._exc(e, what)
             return
+        if not self._boot_expect(f):
+            try:
+                real.__exit__(None, None, None)
+            except Exception:  # noqa
+                pass
+            return
+        if f.get('boot'):
+            self.classes.add('open:boot-info-table-file')
         shadow = PatternFile(f['size']) if f.get('huge') else io.BytesIO(f['data'])
         s = _Stream(real, shadow, f['idx'], kind, name, f['backing'])
         self.live.append(s)
@@ -787,6 +861,10 @@ class Interp:
         got = out.getvalue()
         self.log('%s -> %s   [size %d, %s]' % (desc, _short(got), f['size'], f['backing']))
         self._disturb(f['backing'], 'extraction of ' + f['iso'])
+        if not self._boot_expect(f):
+            return
+        if f.get('boot'):
+            self.classes.add('extract:boot-info-table-file')
         want = f['data']
         if got != want:
             if len(got) > len(want):
@@ -873,6 +951,24 @@ class Interp:
             except Exception:
                 pass
         self.live = []
+        bf = self.bootfile
+        if bf is not None and bf.get('claimed-extent') is not None and not self.recipe.get('huge') and not self.sigs:
+            # the extent the expectation was built from is the one the file really gets
+            try:
+                out = io.BytesIO()
+                self.iso.write_fp(out)
+                img = out.getvalue()
+            except Exception as e:   # noqa  (mastering failures are C01's)
+                self.col.bump('boot-verify-write-raised:' + exc_signature(e))
+                img = None
+            if img is not None:
+                self.col.bump('boot-extent-verified')
+                lo = bf['claimed-extent'] * 2048
+                if img[lo:lo + bf['size']] != bf['data']:
+                    p = img.find(bf['raw'][64:]) if bf['size'] >= 80 else -1
+                    self.fail('C16/boot-info-table/bytes-handed-out-differ-from-the-written-image', 'stream',
+                              'the readers of %s were given a boot info table for extent %d; the written image has the file at %s and %s there'
+                              % (bf['iso'], bf['claimed-extent'], ('extent %d' % ((p - 64) // 2048)) if p >= 64 else '?', _short(img[lo:lo + 64])))
         try:
             self.iso.close()
         except Exception:
@@ -961,6 +1057,11 @@ def make_machine(col):
 
         def _ok(self):
             return self.it is not None and self.it.ok
+
+        @precondition(lambda self: not self._ok())
+        @rule()
+        def nothing_to_do(self):     # the set-up was refused (counted): the machine has no other rule to offer
+            pass
 
         @precondition(lambda self: self._ok() and len(self.it.live) < MAX_LIVE)
         @rule(op=open_op)
